@@ -681,4 +681,20 @@ func checkMemoryFileTypestate(c *Ctx, r *Report, pkg string) {
 			r.Check(ok, r8, fn, "delete(blobs) after nil-ing data", in, "data slice cleared first", "a blob is removed from the memory store without clearing its data slice: handles opened earlier keep serving stale bytes instead of the evicted error")
 		})
 	}
+	// R10: R8's "*b.data = nil" reaches the handles only because they hold the same
+	// pointer as the blob: blob.data (and File.data) must be set once, when the
+	// object is built, and never redirected afterwards.
+	r10 := r.Rule("R10", "E-OWN", "the pointer fields blob.data and File.data are stored only into an object allocated in the same function (construction); a later store would detach open handles from eviction", 2)
+	for _, fn := range c.FuncsIn(pkg) {
+		if c.isFixture(fn) {
+			continue
+		}
+		for _, f := range []string{tBlob + ".data", pkg + ".File.data"} {
+			for _, st := range storesToField(fn, f) {
+				fa, _ := st.Addr.(*ssa.FieldAddr)
+				_, fresh := fa.X.(*ssa.Alloc)
+				r.Check(fa != nil && fresh, r10, fn, "store "+short(f), st, "at construction", "the data pointer of an existing "+short(f)+" is redirected: handles opened earlier keep the old slice, which eviction and deletion no longer clear, so they serve stale bytes instead of the evicted error")
+			}
+		}
+	}
 }
